@@ -33,7 +33,8 @@ func TestCheck(t *testing.T) {
 		"the action is started at the k-th visit of the point and the visitor is held until the action's goroutine passed reactive.invalidate.unlocked / reactive.strobe.snapshot / rerunner.stop.cancelled (2 ms fallback); " +
 		"base workload = 3 rerunners over 5 cells with cached children (depth 2, key shared by siblings), a conditional leaf, one planned RetrySentinelError, 6+ paced writes of both styles, one Stop half-way; a cell whose injection did not fire is retried with up to 2 more schedules. " +
 		"RANDOM: 1-4 rerunners x 1-5 cells (shared), random plans (direct leaves, conditional leaves, cached children depth<=2, concurrent children), <=3 planned retries and at most one fatal error per rerunner, 1-3 writer goroutines issuing invalidate/strobe/double-invalidate writes, Stops, at seeded moments, yield intensity 30-60%. " +
-		"Oracles: (i) in-flight count 0 at every compute entry; (ii) no entry after Stop returned, in-flight 0 when Stop returns; (iii) after the last write, within <=50 runs per rerunner and at quiescence the last successful run of every live rerunner read exactly the current version of every cell it read. " +
+		"STORM (high-contention leg for windows without a hook point): 4-12 rerunners, each reading cell 0 directly and through 0-10 concurrently evaluated cached children, equal minRerunInterval; a chain of 8-16 storm writes: readers that have picked the cell's current resource park at a harness gate in front of AddDependency, the write swaps the resource and calls Invalidate on the old one at the moment the gate opens (staggered wake-ups or a spin barrier, order varied); stat registrations_released_with_an_invalidate counts the overlapped registrations. " +
+		"Oracles: (i) in-flight count 0 at every compute entry; (ii) no entry after Stop returned, in-flight 0 when Stop returns; (iii) after the last write, within <=50 runs per rerunner and at quiescence the last successful run of every live rerunner read exactly the current version of every cell it read and did not register any cell resource on which Invalidate was called (the property's own wording: invalidated dependency => re-run). " +
 		"Non-trivial = the injection fired (targeted) or at least one write landed while a compute function was running and >=2 successful runs happened (random); distinct = scenario shape + hook-visit trace hash.")
 	run.Assume("harness cells follow the documented discipline: readers AddDependency and then read the version; writers bump the version and then Invalidate (replacing the resource) or Strobe")
 	run.Assume("a resource thunder already released (Cleanup ran) is replaced by a fresh one at the next read, because release implies invalidation by design")
@@ -45,7 +46,7 @@ func TestCheck(t *testing.T) {
 	M := len(matrix)
 	variants := run.N(2, 100)
 	nRandom := run.N(500, 120000)
-	nStorm := run.N(160, 40000)
+	nStorm := run.N(280, 12000)
 	total := M*variants + nRandom + nStorm
 	agg := vlib.NewHitAgg()
 	pf := reactx.Profile{}
